@@ -20,11 +20,26 @@ Fragment (anything else raises TranslateError => "tie broken"):
           `x = operator.index(x)` (identity on ints), `self.attr = e`
 The numpy idioms are mapped to the list functions of `PyPhysim.Model.C02`
 (`npArange`, `npR`, `fftshift`, `pySlice`, `ceilDivInt`).
+
+Equivalent spellings that reach the same Lean text (harmless rewrites keep the tie):
+  * function bodies are first brought to the decision-tree normal form of `harness.gen.norm`
+    (guard clause == else branch, single exit == one return per leaf, `!=` test == `==` test with the
+    branches swapped, `v = e; return v` == `return e`, conditional expressions == if/else)
+  * `math.ceil(float(a) / b)` [optionally inside `int(..)`] == `int(np.ceil(float(a) / b))`: both are the
+    exact ceiling, as a Python int, of the same binary64 quotient
+  * `np.arange(a, b)` / `np.arange(a, b, 1)` == `np.r_[a:b]` (numpy defines `r_[a:b]` as that `arange`)
+  * `np.concatenate(<seq>)` / `np.concatenate(<seq>, axis=0)` == `np.hstack(<seq>)` on 1-D arrays
+  * `array + int` == `int + array`, `i + j` == `j + i`, `i * j` == `j * i` on (unbounded) ints: the two
+    operands are emitted in a fixed order (names before literals, then alphabetically)
+  * `x[:b]` == `x[0:b]` (step 1)
+  * in `set_parameters`: `if x is None: x = d` followed by `x = operator.index(x)` == the same with the
+    `operator.index` in an `else:` branch (the identity on the ints the fragment is about)
 """
 import ast
 import os
 
 from harness.translate import TranslateError, parse_file, find_fn, HEADER, strip_doc
+from harness.gen import norm
 
 FILE = 'pyphysim/modulators/ofdm.py'
 ATTRS = ['fft_size', 'cp_size', 'num_used_subcarriers']
@@ -40,6 +55,10 @@ def _is_np(e, *path):
             return False
         e = e.value
     return isinstance(e, ast.Name) and e.id == 'np'
+
+
+def _is_math_ceil(f):
+    return isinstance(f, ast.Attribute) and f.attr == 'ceil' and isinstance(f.value, ast.Name) and f.value.id == 'math'
 
 
 def _self_attr(e):
@@ -74,13 +93,18 @@ class Tr:
             (l, lt), (r, rt) = self.ex(e.left), self.ex(e.right)
             op = {ast.Add: '+', ast.Sub: '-', ast.Mult: '*'}.get(type(e.op))
             if lt == 'int' and rt == 'int':
+                if op in ('+', '*'):
+                    # commutative on Int: fixed operand order (names before literals, then alphabetically)
+                    l, r = sorted((l, r), key=lambda t: (t.startswith('(') and t.endswith(': Int)'), t))
                 if op:
                     return '(%s %s %s)' % (l, op, r), 'int'
                 if isinstance(e.op, ast.FloorDiv):
                     return '(Int.fdiv %s %s)' % (l, r), 'int'
                 if isinstance(e.op, ast.Mod):
                     return '(Int.fmod %s %s)' % (l, r), 'int'
-            if lt == 'arr' and rt == 'int' and op in ('+', '-'):
+            if lt == 'arr' and rt == 'int' and op == '+':
+                return '(%s.map (fun v => %s + v))' % (l, r), 'arr'          # == int + array
+            if lt == 'arr' and rt == 'int' and op == '-':
                 return '(%s.map (fun v => v %s %s))' % (l, op, r), 'arr'
             if lt == 'int' and rt == 'arr' and op == '+':
                 return '(%s.map (fun v => %s + v))' % (r, l), 'arr'
@@ -101,14 +125,27 @@ class Tr:
                     if ty != 'int':
                         raise TranslateError('slice bound is not an int')
                     return '(some %s)' % t
-                return '(pySlice %s %s %s)' % (v, bound(e.slice.lower), bound(e.slice.upper)), 'arr'
+                lower = bound(e.slice.lower) if e.slice.lower is not None else '(some (0 : Int))'
+                return '(pySlice %s %s %s)' % (v, lower, bound(e.slice.upper)), 'arr'
             raise TranslateError('unsupported subscript ' + ast.dump(e)[:120])
+        if isinstance(e, ast.Call) and _is_np(e.func, 'concatenate') and len(e.args) == 1 \
+                and isinstance(e.args[0], (ast.List, ast.Tuple)) \
+                and all(k.arg == 'axis' and isinstance(k.value, ast.Constant) and k.value.value == 0
+                        and isinstance(k.value.value, int) for k in e.keywords) and len(e.keywords) <= 1:
+            # on 1-D arrays np.concatenate(seq[, axis=0]) IS np.hstack(seq)
+            e = ast.Call(func=ast.Attribute(value=ast.Name(id='np', ctx=ast.Load()), attr='hstack', ctx=ast.Load()),
+                         args=e.args, keywords=[])
         if isinstance(e, ast.Call) and not e.keywords:
             f = e.func
             if _is_np(f, 'arange') and len(e.args) == 1:
                 t, ty = self.ex(e.args[0])
                 if ty == 'int':
                     return '(npArange %s)' % t, 'arr'
+            if _is_np(f, 'arange') and (len(e.args) == 2 or (len(e.args) == 3 and isinstance(e.args[2], ast.Constant)
+                                                             and e.args[2].value == 1 and isinstance(e.args[2].value, int))):
+                (a, at), (b, bt) = self.ex(e.args[0]), self.ex(e.args[1])
+                if at == bt == 'int':
+                    return '(npR %s %s)' % (a, b), 'arr'                     # np.r_[a:b] IS np.arange(a, b)
             if _is_np(f, 'fft', 'fftshift') and len(e.args) == 1:
                 t, ty = self.ex(e.args[0])
                 if ty == 'arr':
@@ -122,10 +159,16 @@ class Tr:
                 need = self.sigs[METHODS[m]]
                 self.attrs.update(need)
                 return '(%s %s)' % (METHODS[m], ' '.join(need)) if need else METHODS[m], 'arr'
-            # int(np.ceil(float(a) / b))
+            # int(np.ceil(float(a) / b)) == math.ceil(float(a) / b) == int(math.ceil(float(a) / b))
+            c = None
             if isinstance(f, ast.Name) and f.id == 'int' and len(e.args) == 1:
                 c = e.args[0]
-                if isinstance(c, ast.Call) and _is_np(c.func, 'ceil') and len(c.args) == 1 \
+                if not (isinstance(c, ast.Call) and not c.keywords and (_is_np(c.func, 'ceil') or _is_math_ceil(c.func))):
+                    c = None
+            elif _is_math_ceil(f):
+                c = e
+            if c is not None:
+                if len(c.args) == 1 \
                         and isinstance(c.args[0], ast.BinOp) and isinstance(c.args[0].op, ast.Div):
                     num, den = c.args[0].left, c.args[0].right
                     if isinstance(num, ast.Call) and isinstance(num.func, ast.Name) and num.func.id == 'float' \
@@ -143,8 +186,13 @@ class Tr:
             return '(' + j.join(self.cond(v) for v in t.values) + ')'
         if isinstance(t, ast.Compare) and len(t.ops) == 1 and type(t.ops[0]) in self.CMP:
             (a, at), (b, bt) = self.ex(t.left), self.ex(t.comparators[0])
+            op = type(t.ops[0])
+            if op in (ast.Gt, ast.GtE) and not (b.startswith('(') and b.endswith(': Int)')):
+                # `a > b` is emitted as `b < a` (what Lean's `>` unfolds to), so the mirrored spelling of a
+                # comparison between two non-literals gives the same text
+                a, b, op = b, a, {ast.Gt: ast.Lt, ast.GtE: ast.LtE}[op]
             if at == bt == 'int':
-                return '(%s %s %s)' % (a, self.CMP[type(t.ops[0])], b)
+                return '(%s %s %s)' % (a, self.CMP[op], b)
         raise TranslateError('C02 fragment: unsupported condition ' + ast.dump(t)[:160])
 
 
@@ -160,7 +208,7 @@ def _is_raise_value_error(body):
 
 
 def body_to_lean(tr, stmts, ind='  '):
-    """pure function bodies: assignments, `if c: return e`, final return"""
+    """pure function bodies in decision-tree normal form: assignments, `if c: <tree> else: <tree>`, final return"""
     if not stmts:
         raise TranslateError('function body falls off the end')
     s, rest = stmts[0], stmts[1:]
@@ -175,14 +223,18 @@ def body_to_lean(tr, stmts, ind='  '):
         if isinstance(s.value, ast.Tuple):
             return ind + '(' + ', '.join(tr.ex(x)[0] for x in s.value.elts) + ')\n'
         return ind + tr.ex(s.value)[0] + '\n'
-    if isinstance(s, ast.If) and not s.orelse and len(s.body) == 1 and isinstance(s.body[0], ast.Return):
+    if isinstance(s, ast.If) and s.orelse and not rest and norm.terminates(s.body) and norm.terminates(s.orelse):
         c = tr.cond(s.test)
         sub = Tr(tr.env, tr.sigs)
         a = body_to_lean(sub, s.body, ind + '  ')
         tr.attrs |= sub.attrs
-        b = body_to_lean(tr, rest, ind + '  ')
+        b = body_to_lean(tr, s.orelse, ind + '  ')
         return '%sif %s then\n%s%selse\n%s' % (ind, c, a, ind, b)
     raise TranslateError('C02 fragment: unsupported statement ' + ast.dump(s)[:160])
+
+
+def normal_body(fn):
+    return norm.tail_form(norm.canon_fn(fn).body, True, collapse=True)
 
 
 def emit_pure(cls_tree, pyname, leanname, params, sigs, ret):
@@ -191,7 +243,7 @@ def emit_pure(cls_tree, pyname, leanname, params, sigs, ret):
     if args != params:
         raise TranslateError('%s: parameters %s, expected %s' % (pyname, args, params))
     tr = Tr({p: (p, 'int') for p in params}, sigs)
-    body = body_to_lean(tr, strip_doc(fn.body))
+    body = body_to_lean(tr, normal_body(fn))
     need = _ordered(tr.attrs)
     sigs[leanname] = need
     binder = ' '.join(need + params)
@@ -211,27 +263,37 @@ def emit_guard(cls_tree):
     opt = ATTRS[2]
     tr = Tr({ATTRS[0]: (ATTRS[0], 'int'), ATTRS[1]: (ATTRS[1], 'int')}, {})
     out, assigned, ind = '', {}, '  '
-    for s in strip_doc(fn.body):
-        if isinstance(s, ast.Assign) and len(s.targets) == 1 and isinstance(s.targets[0], ast.Name) \
-                and isinstance(s.value, ast.Constant) and isinstance(s.value.value, str):
-            continue                                    # msg = "..."
+
+    def is_index_identity(s):
         # `name = operator.index(name)`: the identity on the ints the fragment is about (coercion of numpy integer
         # scalars to python ints; anything that is not an integer raises TypeError before any guard)
-        if (isinstance(s, ast.Assign) and len(s.targets) == 1 and isinstance(s.targets[0], ast.Name)
+        return (isinstance(s, ast.Assign) and len(s.targets) == 1 and isinstance(s.targets[0], ast.Name)
                 and isinstance(s.value, ast.Call) and isinstance(s.value.func, ast.Attribute)
                 and s.value.func.attr == 'index' and isinstance(s.value.func.value, ast.Name)
                 and s.value.func.value.id == 'operator' and len(s.value.args) == 1 and not s.value.keywords
-                and isinstance(s.value.args[0], ast.Name) and s.value.args[0].id == s.targets[0].id
-                and s.targets[0].id in tr.env and tr.env[s.targets[0].id][1] == 'int' and not assigned):
+                and isinstance(s.value.args[0], ast.Name) and s.value.args[0].id == s.targets[0].id)
+
+    # decision-tree normal form: a guard `if c: raise` is followed by the rest of the body in its else branch
+    todo = norm.tail_form(norm.canon_fn(fn).body, True)
+    while todo:
+        s = todo.pop(0)
+        if isinstance(s, ast.Assign) and len(s.targets) == 1 and isinstance(s.targets[0], ast.Name) \
+                and isinstance(s.value, ast.Constant) and isinstance(s.value.value, str):
+            continue                                    # msg = "..."
+        if (is_index_identity(s) and s.targets[0].id in tr.env and tr.env[s.targets[0].id][1] == 'int'
+                and not assigned):
             continue
-        if isinstance(s, ast.If) and not s.orelse:
+        if isinstance(s, ast.If):
             t = s.test
             if (isinstance(t, ast.Compare) and isinstance(t.left, ast.Name) and t.left.id == opt
                     and len(t.ops) == 1 and isinstance(t.ops[0], ast.Is)
                     and isinstance(t.comparators[0], ast.Constant) and t.comparators[0].value is None
                     and len(s.body) == 1 and isinstance(s.body[0], ast.Assign)
                     and len(s.body[0].targets) == 1 and isinstance(s.body[0].targets[0], ast.Name)
-                    and s.body[0].targets[0].id == opt and opt not in tr.env):
+                    and s.body[0].targets[0].id == opt and opt not in tr.env
+                    # the value given explicitly is used as it is (possibly through `operator.index`)
+                    and (not s.orelse or (len(s.orelse) == 1 and is_index_identity(s.orelse[0])
+                                          and s.orelse[0].targets[0].id == opt))):
                 d, ty = tr.ex(s.body[0].value)
                 if ty != 'int':
                     raise TranslateError('default of %s is not an int' % opt)
@@ -244,6 +306,7 @@ def emit_guard(cls_tree):
                 if assigned:
                     raise TranslateError('guard after attribute assignment')
                 out += '%sif %s then .error .ValueError else\n' % (ind, tr.cond(t))
+                todo = list(s.orelse) + todo
                 continue
         a = _self_attr(s.targets[0]) if isinstance(s, ast.Assign) and len(s.targets) == 1 else None
         if a in ATTRS:
@@ -266,11 +329,9 @@ def emit_guard(cls_tree):
 
 def emit_scale(cls_tree):
     fn = find_fn(cls_tree, '_calculate_power_scale', cls='OFDM')
-    body = strip_doc(fn.body)
-    if not (len(body) == 2 and isinstance(body[0], ast.Assign) and isinstance(body[0].targets[0], ast.Name)
-            and isinstance(body[1], ast.Return) and isinstance(body[1].value, ast.Name)
-            and body[1].value.id == body[0].targets[0].id):
-        raise TranslateError('_calculate_power_scale: expected `x = e; return x`')
+    body = normal_body(fn)
+    if not (len(body) == 1 and isinstance(body[0], ast.Return) and body[0].value is not None):
+        raise TranslateError('_calculate_power_scale: expected `x = e; return x` / `return e`')
 
     def sc(e):
         a = _self_attr(e)
